@@ -72,7 +72,7 @@ func c17Check(c docCase) error {
 	if _, err := modelOf(c.In); err != nil {
 		return err
 	}
-	for _, cfg := range parseCfgs() {
+	for _, cfg := range parseCfgsSib(c.In) {
 		in := append([]byte(nil), c.In...)
 		pj, err := parseWith(cfg, in, false)
 		if err != nil {
@@ -444,3 +444,70 @@ func TestC17_Docs(t *testing.T) {
 }
 
 var _ = simdjson.TagEnd
+
+// ---------------------------------------------------------------------------------------------
+// C17 on whatever Parse accepts: the property speaks of "a successful parse", not of valid documents. Inputs that are
+// NOT valid JSON (mutations, unbalanced large documents) are parsed in every configuration, including the ones that
+// recycle buffers and result objects; wherever the call succeeds - rightly or not, that verdict is C01's business -
+// the exported tape must obey the format.
+
+type c17AnyCase struct {
+	In []byte `json:"in"`
+	ND bool   `json:"nd"`
+}
+
+func c17AnyCheck(c c17AnyCase) error {
+	for _, cfg := range parseCfgsSib(c.In) {
+		in := append([]byte(nil), c.In...)
+		pj, err := parseWith(cfg, in, c.ND)
+		if err != nil {
+			continue
+		}
+		if pj == nil {
+			return fmt.Errorf("[%s] neither error nor result", cfg)
+		}
+		if _, err := tapeCheck(pj, true); err != nil {
+			return fmt.Errorf("[%s] the call succeeded, but the tape it exports violates the format: %v\ninput: %q", cfg, err, clip(c.In))
+		}
+	}
+	return nil
+}
+
+var c17AnyRun = register("C17", "any-input", c17AnyCheck)
+
+func TestC17_Accepted(t *testing.T) {
+	runRapid(t, "C17_Accepted", nCases(12_000, 200_000), func(t *rapid.T) {
+		var in []byte
+		kind := "mutated"
+		nd := false
+		switch rapid.IntRange(0, 3).Draw(t, "src") {
+		case 0: // the reuse-size classes: valid, stage-1-invalid, stage-2-invalid, below and above 8 KiB
+			in, kind = genReuseInput(t)
+		case 1: // a valid large document with one scope too many or too few, still ending in a closing bracket
+			base, _ := genReuseInput(t)
+			switch rapid.IntRange(0, 4).Draw(t, "unbalance") {
+			case 0:
+				in = append([]byte("["), base...)
+			case 1:
+				in = append([]byte(`{"a":`), base...)
+			case 2:
+				in = append(append([]byte(nil), base...), ']')
+			case 3:
+				in = append(append([]byte("[["), base...), ']')
+			default:
+				in = append(append([]byte(`[{"a":[`), base...), []byte("]}")...)
+			}
+			kind = "unbalanced"
+		case 2:
+			in, _ = genNDInput(t)
+			nd = true
+			kind = "ndjson"
+		default:
+			text, toks := render(genDoc(t, pickProfile(t)), genLayout(t, false))
+			in, _ = mutate(t, text, toks)
+		}
+		c17AnyRun(t, c17AnyCase{In: in, ND: nd})
+		col("C17").Eval(len(in) > 2, evidHash(in, []byte{b2i(nd)}), "gen:any-input/"+kind)
+	})
+	col("C17").Completed("TestC17_Accepted")
+}
